@@ -374,10 +374,26 @@ def bloch_point(ctx):
         kwm = {"vdims": labs,
                "vdim_mapping": gen.shuffle_keys(rng, {labs[j]: dnames[(j + shift) % 3] for j in range(3)})}
         arr = np.stack([arr[..., (j + shift) % 3] for j in range(3)], axis=-1)
+    masked = bool(rng.random() < 0.4)
+    if masked:
+        # "all validity masks", in the only form for which "exactly one" is well defined
+        # for a finite-difference method: the sample is a block of cells that keeps the
+        # hedgehog >= 3.5 cells away from its faces (the same margin as for the mesh
+        # boundary); the cells outside are not part of the sample and hold anything.
+        # (Staircase-shaped samples such as spheres are not judged: the unchanged library
+        # counts 0 or 2 there in about 3 % of the cases - discretisation error.)
+        lo = np.maximum(np.floor(idx - rng.uniform(3.5, 4.5, 3)).astype(int), 0)
+        hi = np.minimum(np.ceil(idx + rng.uniform(3.5, 4.5, 3)).astype(int), n)
+        valid = np.zeros(tuple(int(k) for k in n), dtype=bool)
+        valid[lo[0]:hi[0], lo[1]:hi[1], lo[2]:hi[2]] = True
+        arr = arr.copy()
+        arr[~valid] = rng.normal(size=(int((~valid).sum()), 3)) * 10.0 ** rng.uniform(-3, 3)
+        kwm["valid"] = valid
+        ctx.event("bloch_point.masked_sample")
     f = gen.via_history(None, df.Field(mesh, nvdim=3, value=arr, **kwm))
     fr = df.Field(mesh, nvdim=3, value=-arr, **kwm)
     info = {"tool": "count_bps", "n": n, "cell": cell, "centre_index": idx, "dims": dnames,
-            "component_shift": shift}
+            "component_shift": shift, "masked_sample": masked}
     # quick tier: every direction for the hedgehog, one (rotating) direction reversed
     rev_dirs = dnames if ctx.thorough else [dnames[(ctx.i // 7) % 3]]
     for direction in dnames:
@@ -434,10 +450,20 @@ def neighbour_angles(ctx):
             src = arr[tuple(i)]
             arr[tuple(j)] = {"same": src, "opposite": -src, "scaled": 3.7 * src,
                              "near": src + 1e-9 * rng.normal(size=3)}[how]
-    arr = arr * 10.0 ** rng.uniform(-3, 3, size=(*n, 1))
+    lengths = gen.pick(rng, ["any", "any", "unit", "nearly_unit", "single_precision_unit"])
+    if lengths == "any":
+        arr = arr * 10.0 ** rng.uniform(-3, 3, size=(*n, 1))
+    elif lengths == "unit":
+        arr = unit(arr)
+    elif lengths == "nearly_unit":
+        # reduced magnetisation as it comes out of a solver: |m| = 1 to 1e-5 .. 1e-7
+        arr = unit(arr) * (1 + 10.0 ** rng.uniform(-7, -5) * rng.uniform(-1, 1, size=(*n, 1)))
+    else:
+        arr = unit(arr).astype(np.float32).astype(float)
     f = df.Field(mesh, nvdim=3, value=arr, vdims=gen.pick(rng, [None, ["a", "b", "c"]]))
     u = unit(arr)
-    info = {"tool": "neighbouring_cell_angle", "n": n, "cell": cell, "pmin": pmin, "dims": dnames}
+    info = {"tool": "neighbouring_cell_angle", "n": n, "cell": cell, "pmin": pmin, "dims": dnames,
+            "vector_lengths": lengths}
     per_axis = []
     for ax, direction in enumerate(dnames):
         sl1 = [slice(None)] * 3
